@@ -630,7 +630,7 @@ extern "C" char *__wrap_setlocale(int cat, const char *loc) {
   return __real_setlocale(cat, loc);
 }
 #endif
-struct TArg { const std::vector<std::string> *lines; size_t k, T; std::vector<std::string> out; pthread_barrier_t *bar; unsigned yield_seed; };
+struct TArg { const std::vector<std::string> *lines; size_t k, T; std::vector<std::string> out; pthread_barrier_t *bar; unsigned yield_seed; bool lockstep; };
 // a call made with an error slot that still holds an earlier error (the caller did not clear it): the library warns on stderr and leaves the slot
 // alone; result discarded - this only exercises the overwrite path, concurrently in threads mode
 static void run_dirty(const std::string &line) {
@@ -652,7 +652,12 @@ static void *tmain(void *p) {
   pthread_barrier_wait(a->bar);
   live_workers++;
   unsigned s = a->yield_seed * 2654435761u + (unsigned) a->k;
-  for (size_t i = a->k; i < a->lines->size(); i += a->T) {
+  size_t rounds = (a->lines->size() + a->T - 1) / a->T;
+  for (size_t r = 0, i = a->k; r < rounds; r++, i += a->T) {
+    // lockstep: all threads enter round r together, so the calls of one round (in focus mixes: the same call in every thread) really overlap and
+    // stay close in the race detector's per-thread history, however the scheduler treats the threads; the calls of one round remain unordered
+    if (a->lockstep) pthread_barrier_wait(a->bar);
+    if (i >= a->lines->size()) continue;
     s = s * 1664525u + 1013904223u;
     if (a->yield_seed && (s >> 28) == 0) sched_yield();
     a->out.push_back(run_simple((*a->lines)[i]));
@@ -772,11 +777,13 @@ int main(int argc, char **argv) {
     size_t T = (size_t) atoi(mode.c_str() + 8);
     const char *p = strchr(mode.c_str() + 8, ':');
     unsigned ys = p ? (unsigned) atoi(p + 1) : 0;
+    const char *p2 = p ? strchr(p + 1, ':') : NULL;
+    bool lockstep = p2 && atoi(p2 + 1) != 0;          // threads:T:yieldseed:1
     pthread_barrier_t bar;
     pthread_barrier_init(&bar, NULL, (unsigned) T);
     std::vector<TArg> args(T);
     std::vector<pthread_t> th(T);
-    for (size_t k = 0; k < T; k++) { args[k].lines = &lines; args[k].k = k; args[k].T = T; args[k].bar = &bar; args[k].yield_seed = ys; pthread_create(&th[k], NULL, tmain, &args[k]); }
+    for (size_t k = 0; k < T; k++) { args[k].lines = &lines; args[k].k = k; args[k].T = T; args[k].bar = &bar; args[k].yield_seed = ys; args[k].lockstep = lockstep; pthread_create(&th[k], NULL, tmain, &args[k]); }
     for (size_t k = 0; k < T; k++) pthread_join(th[k], NULL);
     std::vector<size_t> idx(T, 0);
     for (size_t i = 0; i < lines.size(); i++) { size_t k = i % T; fputs(args[k].out[idx[k]++].c_str(), out); fputc('\n', out); }
